@@ -1,5 +1,6 @@
 """Contracts of the index kernel of pyerrors/obs.py (DESIGN section 5, layer L1)."""
 from pyvc.specs import contract, Int, Real, RealSeq, Idl, IdlList, IdlRange, ListOf, Seq, Const, OneOf
+from pyvc import gen as G
 from pyvc.sym import (Len, At, And, Or, Not, Implies, Iff, Ite, ForAll, Exists, eq, is_range, member,
                       strictly_increasing, compare, arith, Step, Start)
 
@@ -51,6 +52,15 @@ def _edfm_inv(k, v):
     }
 
 
+def _edfm_gen(rng, case):
+    new_idx = G.idl(rng, case["new_idx"])
+    idx = G.sub_idl(rng, new_idx, case["idx"])
+    if rng.random() < 0.3 and case["idx"] == case["new_idx"]:
+        idx = new_idx
+    return dict(deltas=G.reals(rng, len(idx)), idx=idx, shape=len(idx), new_idx=new_idx,
+                scalefactor=rng.choice([1, 1.0, 2.0, 1.5, 0.5]))
+
+
 contract(
     "pyerrors/obs.py::_expand_deltas_for_merge", props=["C01", "C04"],
     params=dict(deltas=RealSeq(), idx=Idl(), shape=Int(), new_idx=Idl(), scalefactor=Real()),
@@ -61,6 +71,7 @@ contract(
     ensures=_edfm_post,
     loops={0: _edfm_inv},
     result=lambda a: RealSeq(),
+    gen=lambda rng, case: _edfm_gen(rng, case),
     note="whole function; result stated for every k of the union (hit and miss clauses)",
 )
 
@@ -95,6 +106,12 @@ def _ed_inv(k, v):
     }
 
 
+def _ed_gen(rng, case):
+    g = rng.choice([1, 1, 2, 3])
+    idx = G.lattice_idl(rng, case["idx"], g)
+    return dict(deltas=G.reals(rng, len(idx)), idx=idx, shape=len(idx), gapsize=g)
+
+
 contract(
     "pyerrors/obs.py::_expand_deltas", props=["C02", "C03"],
     params=dict(deltas=RealSeq(), idx=Idl(closed_form=True), shape=Int(), gapsize=Int(lo=1)),
@@ -106,4 +123,5 @@ contract(
     ensures=_ed_post,
     loops={0: _ed_inv},
     result=lambda a: RealSeq(),
+    gen=lambda rng, case: _ed_gen(rng, case),
 )
